@@ -4,6 +4,7 @@ import (
 	"bytes"
 	"encoding/hex"
 	"io"
+	"math"
 
 	"github.com/aperturerobotics/bifrost/crypto"
 	"github.com/aperturerobotics/bifrost/keypem"
@@ -43,23 +44,33 @@ func BuildEnvelope(
 	grants := config.GetGrantConfigs()
 
 	// Validate keypair indexes and compute total shares.
-	var totalShares uint32
+	var grantShares uint64
 	for _, gc := range grants {
 		sc := gc.GetShareCount()
 		if sc == 0 {
 			sc = 1
 		}
-		totalShares += sc
+		grantShares += uint64(sc)
+		if grantShares > math.MaxUint32 {
+			return nil, ErrInvalidThreshold
+		}
+		// A grant that no keypair can decrypt would swallow its shares.
+		if len(gc.GetKeypairIndexes()) == 0 {
+			return nil, ErrNoKeypairs
+		}
 		for _, idx := range gc.GetKeypairIndexes() {
 			if int(idx) >= len(keypairs) {
 				return nil, ErrInvalidKeypairIndex
 			}
 		}
 	}
+	totalShares := uint32(grantShares) //nolint:gosec // bounded by the check in the loop above
 	if config.GetTotalShares() > 0 {
 		totalShares = config.GetTotalShares()
 	}
-	if threshold > 0 && totalShares < threshold+1 {
+	// Only the shares that fit into the grants are handed out: recovery needs
+	// threshold+1 of those.
+	if min(uint64(totalShares), grantShares) < uint64(threshold)+1 {
 		return nil, ErrInvalidThreshold
 	}
 
